@@ -75,8 +75,9 @@ uint32_t x_verif_oracle_dec2double(uint64_t man, uint32_t exp10u, uint64_t bits)
 static ll_big ll_pow10(int n){ ll_big r = 1; for (int i = 0; i < 400; i++) { if (i < n) r = r * 10; } return r; }
 uint32_t x_verif_oracle_shortest(uint64_t c, uint32_t qu, uint32_t irregular, uint64_t sig, uint32_t expu){
   int q = (int)qu, e = (int)expu;
-  int e1 = (int)LL_PARAMS[4], e2 = (int)LL_PARAMS[5];          /* e1 <= e2 */
-  if (e != e1 && e != e2) return 0;
+  int e1 = (int)LL_PARAMS[4];          /* smallest decimal exponent the result may have; the regular and the irregular
+                                          (power-of-two) estimate differ by at most one, and each allows k or k+1: e in e1..e1+2 */
+  if (e < e1 || e > e1 + 2) return 0;
   /* common scale: multiply everything by 2^S2 * 10^S10 with S2 = max(0, 2-q), S10 = max(0, -e1) */
   int S2 = q < 2 ? 2 - q : 0, S10 = e1 < 0 ? -e1 : 0;
   ll_big P10 = ll_pow10(S10);
@@ -86,8 +87,8 @@ uint32_t x_verif_oracle_shortest(uint64_t c, uint32_t qu, uint32_t irregular, ui
   ll_big lo = (ll_big)(4 * c - 2 + irregular) * bscale, mid = (ll_big)(4 * c) * bscale, hi = (ll_big)(4 * c + 2) * bscale;
   /* decimal side: sig * 10^(e + S10) * 2^S2 */
   ll_big unit1 = ll_pow10(e1 + S10) * two;           /* one unit of the last digit at exponent e1 */
-  ll_big unit2 = ll_pow10(e2 + S10) * two;
-  ll_big unit = (e == e1) ? unit1 : unit2;
+  ll_big unit2 = unit1 * 10, unit3 = unit2 * 10;
+  ll_big unit = (e == e1) ? unit1 : (e == e1 + 1) ? unit2 : unit3;
   ll_big x = (ll_big)sig * unit;
   int even = (c & 1) == 0;
   /* (a) inside the rounding interval */
